@@ -67,6 +67,57 @@ def build_worker(variant="committed"):
     return out
 
 
+def build_race_driver():
+    """Build harness/cmd/pvrace against /repo's working tree WITHOUT the verif tag and WITH the Go race detector."""
+    if "race" in _built:
+        return _built["race"]
+    build_worker("committed")          # go.sum / go.mod prepared
+    h = os.path.join(VERIF, "harness")
+    out = os.path.join(BIN, "pvrace")
+    t0 = time.time()
+    p = subprocess.run(["go", "build", "-race", "-o", out, "./cmd/pvrace"], cwd=h, env=dict(GOENV, CGO_ENABLED="1"), capture_output=True, text=True)
+    if p.returncode != 0:
+        raise Broken("go build -race failed:\n" + p.stdout + p.stderr)
+    log(f"[build] race driver built in {time.time()-t0:.1f}s")
+    _built["race"] = out
+    return out
+
+
+def run_race_driver(req, timeout_s=900):
+    """Run pvrace on one request; returns (response dict, list of race reports).  A report is a list of accesses
+    [(kind, [frames...])], frames = "func file:line" innermost first."""
+    import tempfile
+    binary = build_race_driver()
+    d = tempfile.mkdtemp(prefix="pvrace")
+    try:
+        env = dict(os.environ, GORACE=f"halt_on_error=0 log_path={d}/race")
+        try:
+            p = subprocess.run([binary], input=json.dumps(req) + "\n", capture_output=True, text=True, env=env, timeout=timeout_s)
+        except subprocess.TimeoutExpired:
+            raise Broken("race driver timed out")
+        try:
+            resp = json.loads(p.stdout.strip().splitlines()[-1])
+        except Exception:
+            resp = {"end": "died:" + (p.stderr or "")[-2000:]}
+        reports = []
+        for f in sorted(os.listdir(d)):
+            text = open(os.path.join(d, f), errors="replace").read()
+            for block in text.split("WARNING: DATA RACE")[1:]:
+                block = block.split("==================")[0]
+                accesses = []
+                for sec in re.split(r"\n(?=\S)", block.strip()):
+                    head = sec.split("\n", 1)[0]
+                    m = re.match(r"(Previous )?(atomic )?(read|write) at \S+ by ", head, re.I)
+                    if not m:
+                        continue
+                    frames = re.findall(r"\n  (\S+)\(\)\n\s+(\S+):(\d+)", "\n" + sec.split("\n", 1)[1] if "\n" in sec else "")
+                    accesses.append((m.group(3).lower(), [f"{fn} {os.path.relpath(fl, REPO) if fl.startswith(REPO) else fl}:{ln}" for fn, fl, ln in frames]))
+                reports.append(accesses)
+        return resp, reports
+    finally:
+        shutil.rmtree(d, ignore_errors=True)
+
+
 HOOKGEN_INFO = {}
 
 
